@@ -242,6 +242,11 @@ def check_write(case, ctx):
 
         d = tempfile.mkdtemp(prefix="verif-c15-")
         path = os.path.join(d, f"{c.name}.bench")
+        if len(cd["edges"]) % 2:
+            import pathlib
+
+            path = pathlib.Path(path)
+            ctx.count("file_path_as_pathlib")
         ok, text = ctx.call(cg.to_file, c, path, fmt="bench")
         if ok:
             text = open(path).read()
